@@ -181,6 +181,16 @@ CLAIMED = {
              "batches of one vector; conjugate symmetry and translation law on the implementation.",
         design="§4 C12", technique="Coq proof of the algebraic laws of the code's formula + correspondence against quadrature of the defining integral",
         note="the quadrature oracle is binary64 harness code (32-point Gauss-Legendre, tolerance 1e-5 * measure); known findings form-factor-small-q-cancellation, zero-q-absolute-threshold."),
+    "C09": dict(
+        text="Theorems for the exact measures (which C01/C02/C04 prove the code computes): scaling laws s^3/s/s^5, translation laws on closed chains (volume "
+             "invariant, first/second moments by the parallel-axis terms), linear maps (volume x det, centroid moves with the shape, reflections flip the "
+             "signed volume), invariance under re-ordering triangles and cyclic re-listing, polygon containment invariant under cyclic shifts, form-factor "
+             "phase under translation. Correspondence (metamorphic): every public query on g(x) vs g applied to the query on x for ConvexPolyhedron (with "
+             "vertex permutation), Polyhedron (vertex relabelling + cyclic face shifts) and (Convex)Polygon (cyclic shifts), g = exact similarity with "
+             "integer rotation, scale 2^-10..2^10, translation to 10 diameters: measures, balls, centroids, central inertia tensors, containment of "
+             "transformed probes, form factors, distance_to_surface; outcomes (ok / exception) must not change.",
+        design="§4 C09", technique="Coq proof of covariance laws of the exact measures + metamorphic correspondence on exact similarities",
+        note="absolute thresholds in vendored code are recorded known findings (polytri, sweep line, zero-q threshold); tolerance 1e-8 relative to each observable's magnitude."),
 }
 
 REASON_TODO = "check not built yet (work in progress this round)"
